@@ -114,7 +114,17 @@ def vectors(rng, pg, stmts, count):
     return out
 
 
+def fixed_point_conditions(ctx):
+    """conditions over fixed-point and mixed operands: C02's comparison statements (with / Else around markers),
+    judged by Fixed.tla's exact rationals.  Added after a seeded change - a fixed-point variable on the left of a
+    comparison reported as 32 bits wide - passed C03, whose operands were all integers."""
+    from checks import c02
+    shapes = [sh for sh in c02.shapes_of(ctx.quick) if sh[0] in c02.CMP]
+    c02.run_shapes(ctx, shapes, 4 if ctx.quick else 8, part="fixed_point_")
+
+
 def run(ctx):
+    fixed_point_conditions(ctx)
     fixed = random.Random(303)
     at = atoms(fixed, 0, all_ops=not ctx.quick)
     progs_ = []
